@@ -296,7 +296,7 @@ def gen_options(rng):
 
 
 def _kw(opts):
-    kw = dict(opts)
+    kw = {k: v for k, v in opts.items() if not k.startswith("_")}
     kw["ngram_range"] = tuple(kw["ngram_range"])
     return kw
 
@@ -386,6 +386,15 @@ def _check(cls, corpus, corpus2, opts):
     bad = []
     kw = _kw(opts)
     sk, ml = SK(**kw), ML(**kw)
+    if opts.get("_prior"):
+        # history: the instance was configured otherwise, used, then re-configured with set_params
+        site += "[after set_params]"
+        ml = ML(**_kw(opts["_prior"]))
+        try:
+            ml.fit_transform(corpus2 if any(d.strip() for d in corpus2) else corpus)
+        except Exception:  # noqa: BLE001
+            pass
+        ml.set_params(**kw)
     try:
         Xs = sk.fit_transform(corpus)
         err_s = None
@@ -464,6 +473,8 @@ def search(ctx, hints):
                            "max_df": 1.0, "max_features": None, "binary": False}))
     for t in range(ctx.pick(250, 4000)):
         cases.append((gen_corpus(rng, ctx.pick(5, 8)), gen_corpus(rng, 3), gen_options(rng)))
+        if t % 6 == 4:
+            cases[-1][2]["_prior"] = gen_options(rng)
     for corpus, corpus2, opts in cases:
         for cls in ("Count", "Tfidf"):
             bad = _check(cls, corpus, corpus2, opts)
